@@ -732,13 +732,17 @@ def all_forms():
 # =====================================================================================================
 # findings classification
 # =====================================================================================================
-def classify(form, vals, real, orc):
-    """known-finding class key for a (form, operands) whose value differs from Python's, or None"""
+def classify(form, vals, real, orc, emitted=None):
+    """known-finding class key for a (form, operands) whose value differs from Python's, or None.  The D11 classes are tied to
+    their mechanism: the op the REAL compiler emitted for the probe (`emitted`) must be the one the finding is about — an
+    `int` division that goes through anything but idiv_s/imod_s/idivmod_s is not D11."""
     ty, dn = resolved_row(form)
     k = form[0]
-    if ty == "int" and dn in ("__floordiv__", "__mod__", "__divmod__") and vals[1] < 0:
+    em = emitted if emitted is not None else set()
+    d11_op = {"__floordiv__": "arithmetic.int.idiv_s", "__mod__": "arithmetic.int.imod_s", "__divmod__": "arithmetic.int.idivmod_s"}
+    if ty == "int" and dn in d11_op and vals[1] < 0 and (emitted is None or d11_op[dn] in em):
         return f"op:int.{dn}:negative-divisor"
-    if ty == "int" and dn == "__rshift__" and vals[0] < 0:
+    if ty == "int" and dn == "__rshift__" and vals[0] < 0 and (emitted is None or "arithmetic.int.ishr" in em):
         return "op:int.__rshift__:negative-left-operand"
     if ty == "float" and dn in ("__floordiv__", "__mod__", "__divmod__"):
         a, b = float(vals[0]), float(vals[1])
@@ -910,6 +914,7 @@ def tie(ctx):
                              f"real check()/lowering fails: {st} {funcs}", src, {"status": st, "info": str(funcs), "table_ops": exp[0] if exp else None})
             continue
         fops = funcs.get("f", [])
+        emitted = {nm for fl in funcs.values() for nm, _s in fl}
         ctx.count({"form": fk, "ops": [nm for nm, _s in fops]}, nontrivial=True, kind="form:ok")
         if exp is None:
             ctx.broke(f"T-obj: form `{fk}` is accepted by the real compiler (ops {[nm for nm, _s in fops]}) but the table dispatch has no applicable row")
@@ -945,7 +950,67 @@ def tie(ctx):
                                       f"{adv} under the adversarial one (a side effect is missing an order edge)",
                                       {"form": list(form), "operands": [repr(v) for v in vals], "default": repr(ires),
                                        "adversarial": repr(adv), "source": src})
-            meta.append((form, vals, fin, ires))
+            meta.append((form, vals, fin, ires, emitted))
+    # ---------------------------------------------------------------- (1c) operand-type pairs OUTSIDE the list above
+    # Which pairs the compiler accepts is itself data: every (operator, left type, right type) over nat/int/float/bool that the
+    # static list does not contain is lowered too (trying each result type).  On the unchanged tree all of them are rejected.  A
+    # pair that is accepted now is covered by the statement ("every operand type combination Guppy accepts"): its lowered probe is
+    # interpreted on the grid and compared with Python's result for the same operand values (bool operands count as 0/1 as in
+    # Python); a difference is a concrete violation, agreement is reported as evidence only.
+    listed = {f for f in forms if f[0] == "bin"}
+    newly = []
+    for op in BINOPS:
+        for t1 in NUMT:
+            for t2 in NUMT:
+                form = ("bin", op, t1, t2)
+                if form in listed:
+                    continue
+                for rt_try in ("bool",) if op in CMPS else ("nat", "int", "float", "bool"):
+                    src = f"@guppy\ndef f(a: {t1}, b: {t2}) -> {rt_try}:\n    return a {op} b\n"
+                    st0, info0 = lower_probe(src)
+                    if st0 == "rejected" and info0 == "BinaryOperatorNotDefinedError":
+                        break          # no dunder applies to this operand pair: the result type is irrelevant
+                    if st0 != "ok":
+                        continue
+                    ih = interp_handle(src)
+                    if ih is None:
+                        continue
+                    handles.append(ih[0])
+                    newly.append((form, rt_try))
+                    fk = _fkey(form) + " -> " + rt_try
+                    ctx.count({"form": fk}, nontrivial=True, kind="form:newly-accepted")
+                    A = G[t1] if op not in () else G[t1]
+                    B = [0, 1, 2, 5, 31, 63] if op in ("<<", ">>") else ([0, 1, 2, 3, 5, 10] if op == "**" and t2 != "float" else G[t2])
+                    bad = 0
+                    for a in A:
+                        for b in B:
+                            try:
+                                r = hi.run(ih[1], "f", [a, b], ret_shape=rt_try, fuel=200_000)
+                            except (hi.Unsupported, hi.OutOfFuel, hi.InterpError):
+                                continue
+                            try:
+                                if op in ("//", "%", "/") and b == 0:
+                                    continue
+                                pa, pb = (int(a) if isinstance(a, bool) else a), (int(b) if isinstance(b, bool) else b)
+                                py = eval(f"pa {op} pb", {"pa": pa, "pb": pb})
+                                if isinstance(py, complex):
+                                    continue
+                                want = (bool(py) if rt_try == "bool" else float(py) if rt_try == "float" else
+                                        wrapS(int(py)) if rt_try == "int" else wrapU(int(py)))
+                                if rt_try in ("int", "nat") and isinstance(py, float) and py != int(py):
+                                    continue
+                            except (OverflowError, ZeroDivisionError, ValueError, TypeError):
+                                continue
+                            got = r.value if r.status == "value" else "panic"
+                            if got != want and not (isinstance(got, float) and isinstance(want, float) and math.isnan(got) and math.isnan(want)):
+                                bad += 1
+                                if bad <= 3:
+                                    ctx.violation(f"input:{fk} {a!r} {b!r}",
+                                                  f"`a {op} b` with a: {t1}, b: {t2} (result {rt_try}) is accepted by the compiler (the unchanged tree "
+                                                  f"rejects this operand pair); on ({a}, {b}) the lowered program computes {got}, Python gives {want}",
+                                                  {"source": src, "operands": [repr(a), repr(b)], "real": repr(got), "oracle": repr(want)})
+                    break
+    ctx.extra["operand_pairs_outside_list_accepted"] = [f"{_fkey(f)} -> {r}" for f, r in newly]
     import feed
     for m in handles:
         feed.unload(m)
@@ -955,7 +1020,7 @@ def tie(ctx):
     it = iter(replies[len(reqs):])
     n_real = 0
     n_interp, interp_unsupported, n_interp_checked = 0, {}, 0
-    for (form, vals, fin, ires), mrep, rr in zip(meta, model_rep, real_reqs):
+    for (form, vals, fin, ires, emitted), mrep, rr in zip(meta, model_rep, real_reqs):
         fk = _fkey(form)
         case = {"form": fk, "operands": [repr(v) for v in vals]}
         rt = result_type(form)
@@ -1003,7 +1068,7 @@ def tie(ctx):
                 if orc is not None:
                     n_interp_checked += 1
                     if not same(ires, orc):
-                        key = classify(form, vals, ires, orc) or f"input:{fk} {' '.join(repr(v) for v in vals)}"
+                        key = classify(form, vals, ires, orc, emitted) or f"input:{fk} {' '.join(repr(v) for v in vals)}"
                         ctx.violation(key, f"`{fk}` on operands {vals}: the lowered probe, run by the reference HUGR interpreter, computes "
                                       f"{ires}, Python gives {orc}",
                                       {"form": list(form), "operands": [repr(v) for v in vals], "real": repr(ires), "oracle": repr(orc),
@@ -1014,7 +1079,7 @@ def tie(ctx):
         if orc is None or real == "undefined":
             continue
         if not same(real, orc):
-            key = classify(form, vals, real, orc) or f"input:{fk} {' '.join(repr(v) for v in vals)}"
+            key = classify(form, vals, real, orc, emitted) or f"input:{fk} {' '.join(repr(v) for v in vals)}"
             ctx.violation(key, f"`{fk}` on operands {vals}: compiled code computes {real}, Python gives {orc}",
                           {"form": list(form), "operands": [repr(v) for v in vals], "real": repr(real), "oracle": repr(orc),
                            "model": repr(model), "source": form_src(form), "independent_real_path": independent})
